@@ -26,7 +26,8 @@ LEVEL_TEXT = ('Every configuration in the stated ball/product is built from the 
 LEVEL_NOTE = ('<= 4 components, <= 6 entries per variable, fixed value palettes (VERIF_SEED selects '
               'one of 3); reference evaluator and NumPy/SciPy linear algebra are trusted; no MPI/PETSc.')
 ASSUMPTIONS = ['the property is conditional on convergence: a state the reference does not confirm as '
-               'converged (residual > 1e-9) is counted not_converged, not a violation',
+               'converged (residual > 1e-9) is counted not_converged, not a violation; so is a run that '
+               'DirectSolver aborts because the Jacobian at an intermediate iterate is singular',
                'central-difference and complex-step approximated partials are exact for the quadratic '
                'IR functions up to round-off (tolerance 1e-6 for fd)',
                'configurations the generator cannot express are counted as skipped with the reason']
@@ -171,6 +172,11 @@ def evaluate(cfg, want_detail=False, extra=None, pid='C01', cls=None):
     except Exception as exc:
         if type(exc).__name__ == 'AnalysisError':
             return 'not_converged', 0, vio      # a solver reported non-convergence
+        if isinstance(exc, RuntimeError) and ('not full rank' in str(exc) or
+                                              'ingular' in str(exc)):
+            # an iterate of a Newton-type solver at which the (real) Jacobian of the quadratic
+            # model is singular: the solve failed, the property is conditional on convergence
+            return 'not_converged:singular_iterate', 0, vio
         V('build_or_run_raises', '%s: %s' % (type(exc).__name__, str(exc)[:300]))
         return 'violation', 0, vio
     U = ir.gather_U(prob, ref)
